@@ -35,6 +35,8 @@ def run(ctx):
     ctx.guarded("R04.3", "line-limit", lambda: line_limit(ctx))
     ctx.guarded("R04.4", "handover", lambda: handover(ctx))
     ctx.guarded("R04.5", "reporting", lambda: reporting(ctx))
+    ctx.rule("R04.6", "a receive is attempted whenever the buffer has room: read_bytes rejects up front only when read_cursor >= BUFFER_SIZE")
+    ctx.guarded("R04.6", "read-guard", lambda: read_guard(ctx))
 
 
 def is_size_err(t):
@@ -77,8 +79,7 @@ def comparison(ctx):
                 ctx.ob("R04.1", "error-fields", ok, "SizeLimitExceeded(limit = self.payload_max_size, size = declared length): (%s, %s)" % (term_s(lim)[:50], term_s(size)[:70]), fn.loc(lf.bb))
             # R04.2: nothing buffered before
             st = [e for e in lf.events if e[0] == "assign" and e[3] in ("(*_1).state", "(*_1).body_bytes_to_be_read", "(*_1).body_vec")]
-            ps = pushes(lf, "response_queue")
-            ctx.ob("R04.2", "reject-before-buffering", not st and not ps, "on the rejecting path no parser state is written and nothing is queued (writes %s, pushes %d)" % ([e[3] for e in st], len(ps)), fn.loc(lf.bb))
+            ctx.ob("R04.2", "reject-before-buffering", not st, "on the rejecting path no body state is written (writes %s)" % [e[3] for e in st], fn.loc(lf.bb))
             ctx.ob("R04.2", "at-end-of-headers", find_outcome(lf) == "some0", "the size check is made when the blank line is found", fn.loc(lf.bb))
         else:
             ctx.ob("R04.1", "error-only-when-exceeds|bb%s" % (lf.trace[-2] if len(lf.trace) > 1 else 0), err is None, "SizeLimitExceeded is returned only under length > limit", fn.loc(lf.bb))
@@ -179,10 +180,39 @@ def handover(ctx):
         for lf in lv:
             a = [e for e in lf.events if e[0] == "assign" and e[3] == "(*_1).payload_max_size"]
             ctx.ob("R04.4", "setter|%s" % name, len(a) == 1 and a[0][4] == ("arg", 2), "%s stores its argument" % name, fn.loc(0))
+    callers = sorted({f.name for f in facts.fns.values() if list(f.calls_to(conn.P + "set_payload_max_size"))})
+    ctx.ob("R04.4", "connection-limit-set-only-at-accept", all(c.startswith("server::HttpServer::handle_new_connection") for c in callers) and callers, "HttpConnection::set_payload_max_size is called only while accepting a connection (callers: %s): an open connection keeps the limit it was given" % callers)
     allowed = {conn.HC: {conn.P + "new", conn.P + "set_payload_max_size"}, SRV: {"server::HttpServer::new", "server::HttpServer::new_from_fd", "server::HttpServer::set_payload_max_size"}}
     for adt, ok_fns in allowed.items():
         for w in field_writers(facts, adt, "payload_max_size"):
             ctx.ob("R04.4", "writers|%s|%s" % (adt.split("::")[-1], w[0]), w[0] in ok_fns, "writer of %s.payload_max_size: %s (%s)" % (adt, w[0], w[3]), w[2])
+
+
+def read_guard(ctx):
+    from ..lin import Lin, State
+    from ..panics import Tr
+    from ..paths import PathEnum
+    facts = ctx.facts
+    bs = facts.const_int("connection::BUFFER_SIZE")
+    fn = facts.fn(conn.READ_BYTES)
+    ctx.touched(fn)
+    n = 0
+    for lf in PathEnum(fn, facts, versioned=True).run():
+        rk = ret_kind(lf)
+        recv = [e for e in lf.events if e[0] == "call" and e[3] == conn.RECV]
+        if recv or rk is None:
+            continue
+        # a path that gives up before receiving
+        n += 1
+        st = State()
+        tr = Tr(facts, fn, st)
+        for e in lf.events:
+            if e[0] == "cond":
+                tr.assume_cond(e[3], e[4])
+        cur = tr.lin(("field", ("deref", ("arg", 1)), conn.HC, "read_cursor"))
+        full = st.entails_le(Lin.const(bs) - cur)
+        ctx.ob("R04.6", "gives-up-only-when-full", full, "read_bytes returns without receiving only when read_cursor >= %d is established (a line of exactly %d bytes can still be completed)" % (bs, bs), fn.loc(lf.bb))
+    ctx.ob("R04.6", "floor", n >= 1, "%d path(s) of read_bytes return before the receive" % n)
 
 
 def closure_captures(ctx, cname):
